@@ -4,6 +4,7 @@ import os
 import core
 
 OPS = ["ctor", "chain", "mul_point", "mul_dir", "mul_point_2d", "mul_dir_2d", "from_transform"]
+OPS_S = OPS + ["local_to_basis", "basis_to_local"]
 
 
 def key(rec):
@@ -12,7 +13,7 @@ def key(rec):
     if rec["op"] == "ctor":
         return "ctor/%s/mat%s" % (rec["st"]["k"], rec["n"])
     if rec["op"] == "from_transform":
-        uniform = len(set(rec["scale"])) == 1
+        uniform = len(set(str(x) for x in rec["scale"])) == 1
         return "from_transform/%s" % ("uniform-scale" if uniform else "nonuniform-scale-order")
     return rec["op"]
 
@@ -49,6 +50,14 @@ def run(ctx):
 
     def nontrivial(r):
         return r["op"] != "chain" or len(r["steps"]) >= 2
+    # symbolic lane: every TLC-enumerated chain (those without the free-axis rotation) is replayed with a fresh symbol for
+    # every parameter and (cos, sin) symbol pairs for the angles; the matrix recorded after each call is compared with
+    # the specification's product as a polynomial matrix - for all parameters at once.  Likewise the constructors,
+    # point/direction helpers, Mat4::from(Transform) on 10 symbols and the change-of-basis matrices on 12.
+    recs_s, _ = core.drive_validate(ctx, "sym", "Trace_Xform", "Trace_Xform_S", "affine-sym", 1, OPS_S, key=key,
+                                    extra_args=["--area", "affine", "--chains", chains], corrupt_op="ctor", nontrivial=nontrivial,
+                                    shards=4)
+    ctx.traces += sum(1 for r in recs_s if r["op"] == "chain")
     recs, mm = core.drive_validate(ctx, "affine", "Trace_Xform", "Trace_Xform_F", "affine", n, OPS, key=key,
                                    extra_args=["--chains", chains, "--maxlen", 10 if thorough else 6],
                                    corrupt_op="ctor", nontrivial=nontrivial, describe=lambda r, i: describe(r, i) or
@@ -57,7 +66,8 @@ def run(ctx):
     ctx.traces += sum(1 for r in recs if r["op"] == "chain")
     ctx.exhaustive = True
     os.remove(chains)
-    ctx.assumptions = ["chains are enumerated exhaustively up to the stated length over the builder kinds of each size; "
+    ctx.assumptions = ["symbolic lane: vek is generic in T and stable Rust has no specialisation, so the polynomial returned on free symbols is the function computed for every element type (parametricity); calls that need a square root or a division by a symbol are not in this lane",
+                       "chains are enumerated exhaustively up to the stated length over the builder kinds of each size; "
                        "parameters of each call are sampled exact rationals / angle tokens",
                        "values compared in the prime field Z_46337"]
 
